@@ -143,6 +143,10 @@ def run(chk: Check, model):
                 chk.loc(fi, mk[0].node))
     nm = _drop_isinstance(bound.get("input_name", T.NONE), True)
     chk.add("C16.info", "connect -> Connection.input_name", nm == S("name"), f"input_name gets {T.show(nm)} for a given name", chk.loc(fi, mk[0].node))
+    regs_ev = [e for e in r.events if e.kind == "store_sub"]
+    chk.add("C16.info", "connect always registers the connection it built", len(regs_ev) == 2 and all(e.guard == T.TRUE for e in regs_ev),
+            "every call of connect must store the freshly built Connection in self.inputs and output_node.outputs (an in-place update of an older edge copies only some "
+            "of the settings)", chk.loc(fi))
     regs = {e.name: (e.key, e.term) for e in r.events if e.kind == "store_sub"}
     nkey = _drop_isinstance(regs.get("self.inputs", (T.NONE, T.NONE))[0], True)
     chk.add("C16.info", "connect registers the input under its (shadow) name", nkey == S("name") and regs["self.inputs"][1] == mk[0].term,
@@ -234,6 +238,16 @@ def run(chk: Check, model):
 
     # ------------------------------------------------------------------ phase recurrence
     rule_phase(chk, model, "C16.phase")
+    # "takes effect in subsequent simulation": the runtime reads the phase again at every episode start
+    from ..asyncrt import AsyncRT
+    from ..asyncrt import NODE as _N, CONN as _C
+    art = AsyncRT(model)
+    for key, q, want, who in (("node", f"{_N}._reset", S("self.node.phase"), "node"), ("conn", f"{_C}.reset", S("self.connection.phase"), "connection")):
+        rr_ = art.eval(q)
+        stores = [e for e in rr_.events if e.kind == "store_attr" and e.name == "self._phase" and e.func == model.func(q).qualname]
+        ok = len(stores) == 1 and stores[0].term == want and not stores[0].loops
+        chk.add("C16.phase", f"the {who} wrapper reads the phase at every episode start", ok, f"{q.rsplit('.', 1)[-1]} stores self._phase = {T.show(stores[0].term)[:80] if stores else None}, "
+                f"expected float({T.show(want)}) (a phase cached at warm-up ignores a later set_delay)", chk.loc(model.func(q)))
     fi, ev, r = _ev(model, "node.BaseNode.info", inline_properties=False)
     nw = dict(r.ret[2]) if r.ret[0] == "obj" else {}
     chk.add("C16.phase", "NodeInfo.phase reads the property", nw.get("phase") == S("self.phase"), f"NodeInfo.phase = {T.show(nw.get('phase', T.NONE))[:120]}", chk.loc(fi_ni))
